@@ -117,6 +117,7 @@ def run_shard(rec, tier, seed, shard, nshards):
                 if stage.size == 0:
                     continue
                 hist = []
+                kept = []
                 prev_sizes = (ns0, nt0)
                 n_steps = int(rng.integers(3, 13))
                 w0 = {"lineage": lhash, "which": which, "root_samples": sorted(smap), "stage_samples": sorted(set(str(x) for x in stage.sample_names))}
@@ -147,6 +148,10 @@ def run_shard(rec, tier, seed, shard, nshards):
                         rec.violation("C03/op/raises", "%s raised %r" % (op, e), dict(w0, history=hist))
                         break
                     hist.append([op, ids] if ids else [op])
+                    kept.append((stage, kit.array_hash(stage.sample_ids), kit.array_hash(stage.treatment_ids), kit.raw_bytes(np.asarray(stage.observation_mask))))
+                    for k_scr, k_s, k_t, k_m in kept:
+                        rec.count("earlier_stage_rechecks")
+                        rec.check(kit.array_hash(k_scr.sample_ids) == k_s and kit.array_hash(k_scr.treatment_ids) == k_t and kit.raw_bytes(np.asarray(k_scr.observation_mask)) == k_m, "C03/alias/earlier-stage-changed", "%s changed an earlier stage of the lineage (ids or mask of a screen it was not applied to)" % op, dict(w0, history=hist[-8:]))
                     stage = new
                     w = dict(w0, history=hist[-8:])
                     rec.case((lhash, which, tuple(str(h) for h in hist)), nontrivial=bool(holdout_only))
